@@ -141,7 +141,7 @@ def pointwise_prediction(vc):
     # (assumed fact of the layer: w^T C^-1 w >= 0), so K_tt - (.) <= K_tt
     t = vc.index("t", st.m)
     quad = (st.Kqx @ st.Ci @ st.Kqx.T).at(t, t)
-    vc.assume(S.cmp(">=", quad, 0))
+    vc.assume_lemma("w^T C^-1 w >= 0 for the inverse of a positive-definite matrix C", S.cmp(">=", quad, 0))
     vc.ensures("variance_at_most_prior_variance", S.cmp("<=", pc.at(t, t), st.Kqq.at(t, t)))
 
 
@@ -182,3 +182,4 @@ def noise_specification(vc):
     else:
         sig = vc.call(gp, "check_error_data", None, None)
         vc.ensures_forall("no_noise_is_zero_matrix", (n, n), lambda i, j: S.cmp("==", sig.at(i, j), 0))
+import contracts.matrix_laws  # noqa: F401  (numerical self-test of the matrix layer's axioms)
